@@ -505,7 +505,9 @@ class Operator:
             )
             with self.timer.getTimer(interactionMessage):
                 interactMethod = getattr(interface, interactMethodName)
-                halt = halt or interactMethod(*args)
+                # call the hook first: a truthy return from an earlier interface must not
+                # short-circuit the remaining interfaces of this event
+                halt = interactMethod(*args) or halt
 
             if self.cs["debugDB"]:
                 self._debugDB(interactionName, interface.name, statePointIndex)
